@@ -33,6 +33,7 @@ func (e *Engine) smtText(o *Obligation, wantModel bool) string {
 	b.WriteString(e.d.text(o.Groups))
 	b.WriteString(e.strDistinct())
 	b.WriteString(e.groundFacts())
+	b.WriteString(e.errGlobalsDistinct())
 	for _, c := range o.Cmds {
 		b.WriteString(c)
 		b.WriteByte('\n')
@@ -185,4 +186,31 @@ func (e *Engine) solveAll(obls []*Obligation, dir string, timeout, workers int) 
 		}(o)
 	}
 	wg.Wait()
+}
+
+// feasible: quick satisfiability check of a path condition (used only to prune infeasible dispatch branches;
+// "unknown" counts as feasible, so pruning never hides an obligation of a reachable path).
+func (x *Exec) feasible(st *State) bool {
+	o := &Obligation{Name: "feasibility", Cmds: st.cmds, Goal: "false", Groups: st.groups}
+	full := x.e.smtText(o, false)
+	if len(full) > maxSMTSize {
+		return true
+	}
+	// quantified hypotheses are dropped: fewer constraints can only make the path look more feasible
+	var b strings.Builder
+	for _, ln := range strings.Split(full, "\n") {
+		if strings.Contains(ln, "(forall ") || strings.Contains(ln, "(exists ") {
+			continue
+		}
+		b.WriteString(ln + "\n")
+	}
+	txt := b.String()
+	dir := filepath.Join(verifDir, "out", "tmp")
+	os.MkdirAll(dir, 0755)
+	x.e.feasN++
+	file := filepath.Join(dir, fmt.Sprintf("feas_%d_%d.smt2", os.Getpid(), x.e.feasN))
+	os.WriteFile(file, []byte(txt), 0644)
+	defer os.Remove(file)
+	status, _ := runSolver(context.Background(), solvers[1], file, 2)
+	return status != "unsat"
 }
